@@ -13,9 +13,12 @@
    and restart; no bound on terms, log lengths or steps).  The full statement C06_statement (Cluster/Statements.v)
    also allows snapshots (log compaction, InstallSnapshot, the restore-time reconciliation of fix D17); that
    part is not proved - it needs Leader Completeness (a snapshot never conflicts with a committed prefix) - and
-   is decided on every run by the co-simulation and the log-matching monitor over every pair of observed logs. *)
-From RaftV Require Import Proofs.LogMatching.
-From RaftV Require Import Cluster.Statements Proofs.AESpec.
+   is decided on every run by the co-simulation and the log-matching monitor over every pair of observed logs.
+   C06_committed_entry_never_removed ("never removes a committed entry"), same executions: an entry a running
+   node holds at or below its commit index stays in that node's log at every later point, whatever requests it
+   accepts, through crashes and restarts (uses excluded middle, axiom `classic`, through leader completeness). *)
+From RaftV Require Import Proofs.LogMatching Proofs.LCKeep.
+From RaftV Require Import Cluster.World Cluster.Statements Proofs.AESpec.
 Open Scope N_scope.
 
 Theorem C06_reject_changes_nothing : forall now n q,
@@ -86,6 +89,20 @@ Theorem C06_log_matching_partial : forall ids boot et ld ls, static ls = true ->
       (In e (n_log a) <-> In e (n_log b)).
 Proof. intros ids boot et ld ls Hs Hn. exact (log_matching_nosnap ids boot et ld ls Hs Hn). Qed.
 Print Assumptions C06_log_matching_partial.
+
+(* "never removes a committed entry", cluster level, every execution without membership changes and snapshots:
+   an entry (above the bootstrap entry) that a running node holds at or below its commit index at one point of
+   the execution is in the log of that node at every later point - whatever AppendEntries requests (stale,
+   duplicated, reordered, overlapping, of any leader) it handles in between, and through crashes at any storage
+   write and restarts. *)
+Theorem C06_committed_entry_never_removed : forall ids boot et ld ls1 ls2,
+  static (ls1 ++ ls2) = true -> nosnap (ls1 ++ ls2) = true ->
+  let w1 := run (init_world ids boot et ld) ls1 in
+  let w2 := run w1 ls2 in
+  forall n1 e n2, In n1 (w_nodes w1) -> n_frozen n1 = false -> In e (n_log n1) -> 2 <= e_index e -> e_index e <= n_commit n1 ->
+    In n2 (w_nodes w2) -> n_id n2 = n_id n1 -> In e (n_log n2).
+Proof. exact committed_entry_stays. Qed.
+Print Assumptions C06_committed_entry_never_removed.
 
 (* not vacuous: a schedule after which three logs hold the entry (2, 1) *)
 Definition c06_labels : list label :=
